@@ -106,7 +106,7 @@ func (f *TLSFarm) ServerCert(identity, ip string) tls.Certificate {
 	defer f.mu.Unlock()
 	k := identity + "/" + ip
 	// certificates whose dates are relative to "a few seconds ago" are made afresh every time
-	fresh := identity == "justexpired" || identity == "justvalid"
+	fresh := identity == "justexpired" || identity == "justvalid" || identity == "expiring"
 	if c, ok := f.serverCert[k]; ok && !fresh {
 		return c
 	}
@@ -115,7 +115,7 @@ func (f *TLSFarm) ServerCert(identity, ip string) tls.Certificate {
 	san := net.ParseIP(ip)
 	now := time.Now()
 	switch identity {
-	case "caA", "expired", "wrongname", "notyet", "justexpired", "justvalid":
+	case "caA", "expired", "wrongname", "notyet", "justexpired", "justvalid", "expiring":
 		spec.Issuer, spec.IssuerKey = f.cas["caA"], caKeys["caA"]
 	case "caB":
 		spec.Issuer, spec.IssuerKey = f.cas["caB"], caKeys["caB"]
@@ -130,6 +130,9 @@ func (f *TLSFarm) ServerCert(identity, ip string) tls.Certificate {
 	}
 	if identity == "justexpired" { // issued by the configured CA, right name, expired 20 s ago
 		spec.NotBefore, spec.NotAfter = now.Add(-48*time.Hour), now.Add(-20*time.Second)
+	}
+	if identity == "expiring" { // genuine for the next 3 seconds only
+		spec.NotBefore, spec.NotAfter = now.Add(-48*time.Hour), now.Add(3*time.Second)
 	}
 	if identity == "justvalid" { // genuine, and valid since 20 s only
 		spec.NotBefore, spec.NotAfter = now.Add(-20*time.Second), now.Add(48*time.Hour)
